@@ -1,8 +1,139 @@
-import Sourmash.Model.Md5Cache
+import Sourmash.Lemmas.Md5Cache
 /-! Property C13 — a sketch's md5sum always reflects its current contents.
-Property theorems only; helper lemmas live in `Sourmash/Lemmas/Md5Cache*.lean`. -/
+Property theorems only; helper lemmas live in `Sourmash/Lemmas/Md5Cache.lean`.
+
+`VOk s` / `TOk s` : the cache field is `none` or `some (digest (ksize s, mins s))`.
+`VPair` / `TPair` : two sketches of one type; `Cmd` : any op of the property's quantifier applied to
+either of them with the other as operand (`Model/Md5Cache.lean`), `run` : a whole command list.
+`digest k mins = md5 (preimage k mins)` with `Md5.md5` the RFC 1321 function of `Model/Md5.lean`. -/
 namespace Sourmash.C13
 open MH Md5Cache
+
+/-- **T-cache_inv**, vector type: for every command list — md5sum / clone / copy / == interleaved in
+    any order with add, add-with-abundance, set, remove, remove_many, clear, merge, inflate,
+    enable/disable abundance, on either sketch — starting from sketches whose cache is empty or
+    correct (new, cloned, correctly loaded), both caches are empty or hold the digest of the current
+    (ksize, hashes). -/
+theorem cache_inv_vec (p : VPair) (cs : List Cmd) (h0 : VOk p.main ∧ VOk p.other) :
+    VOk (p.run cs).main ∧ VOk (p.run cs).other :=
+  VPair.run_ok cs h0
+
+/-- **T-cache_inv**, tree type. -/
+theorem cache_inv_tree (p : TPair) (cs : List Cmd) (h0 : TOk p.main ∧ TOk p.other) :
+    TOk (p.run cs).main ∧ TOk (p.run cs).other :=
+  TPair.run_ok cs h0
+
+/-- the three admissible starting points satisfy the hypothesis of T-cache_inv: a new sketch, a
+    clone of a consistent sketch, and a loaded sketch whose stored digest is that of its hashes -/
+theorem start_points (num mh k : Nat) (t : Bool) (s : Vec) (hs : VOk s) (l : Vec) (hl : l.md5 = some l.digest)
+    (s' : Tree) (hs' : TOk s') (l' : Tree) (hl' : l'.md5 = some l'.digest) :
+    VOk (Vec.new num mh t k) ∧ VOk s.clone.1 ∧ VOk l
+    ∧ TOk (Tree.new num mh t k) ∧ TOk s'.clone.1 ∧ TOk l' :=
+  ⟨VOk.new .., (Vec.clone_spec hs).2.2.2.1, VOk.loaded l hl, TOk.new .., (Tree.clone_spec hs').2.2.2.1, TOk.loaded l' hl'⟩
+
+/-- **T-md5_current**, vector type: after ANY command list, `md5sum` of either sketch is the digest of
+    its current ksize and hashes (whatever was computed or cached earlier), and asking does not
+    change the hashes. -/
+theorem md5_current_vec (p : VPair) (cs : List Cmd) (h0 : VOk p.main ∧ VOk p.other) :
+    let q := p.run cs
+    q.main.md5sum.1 = Md5.digest q.main.ksize q.main.mins
+    ∧ q.other.md5sum.1 = Md5.digest q.other.ksize q.other.mins
+    ∧ q.main.md5sum.2.mins = q.main.mins ∧ q.other.md5sum.2.mins = q.other.mins := by
+  intro q
+  have h := cache_inv_vec p cs h0
+  exact ⟨(Vec.md5sum_spec h.1).1, (Vec.md5sum_spec h.2).1, (Vec.md5sum_spec h.1).2.2.1, (Vec.md5sum_spec h.2).2.2.1⟩
+
+/-- **T-md5_current**, tree type. -/
+theorem md5_current_tree (p : TPair) (cs : List Cmd) (h0 : TOk p.main ∧ TOk p.other) :
+    let q := p.run cs
+    q.main.md5sum.1 = Md5.digest q.main.ksize q.main.mins
+    ∧ q.other.md5sum.1 = Md5.digest q.other.ksize q.other.mins
+    ∧ q.main.md5sum.2.mins = q.main.mins ∧ q.other.md5sum.2.mins = q.other.mins := by
+  intro q
+  have h := cache_inv_tree p cs h0
+  exact ⟨(Tree.md5sum_spec h.1).1, (Tree.md5sum_spec h.2).1, (Tree.md5sum_spec h.1).2.2.1, (Tree.md5sum_spec h.2).2.2.1⟩
+
+/-- what the machine's observer commands answer after any history (this is the value the driver
+    prints in its model column): the digest of the current contents of the sketch asked. -/
+theorem observers_current_vec (p : VPair) (cs : List Cmd) (h0 : VOk p.main ∧ VOk p.other) :
+    let q := p.run cs
+    (q.step (.on false .md5)).2 = .digest (Md5.digest q.main.ksize q.main.mins)
+    ∧ (q.step (.on true .md5)).2 = .digest (Md5.digest q.other.ksize q.other.mins)
+    ∧ (q.step (.on false .clone)).2 = .digest (Md5.digest q.main.ksize q.main.mins)
+    ∧ (q.step (.on false .copy)).2 = .digest (Md5.digest q.main.ksize q.main.mins) := by
+  intro q
+  have h := cache_inv_vec p cs h0
+  exact ⟨(vecOp_digest (s := q.other) h.1).1, (vecOp_digest (s := q.main) h.2).1, (vecOp_digest (s := q.other) h.1).2.2.1, (vecOp_digest (s := q.other) h.1).2.2.2.2.1⟩
+
+theorem observers_current_tree (p : TPair) (cs : List Cmd) (h0 : TOk p.main ∧ TOk p.other) :
+    let q := p.run cs
+    (q.step (.on false .md5)).2 = .digest (Md5.digest q.main.ksize q.main.mins)
+    ∧ (q.step (.on true .md5)).2 = .digest (Md5.digest q.other.ksize q.other.mins)
+    ∧ (q.step (.on false .clone)).2 = .digest (Md5.digest q.main.ksize q.main.mins)
+    ∧ (q.step (.on false .copy)).2 = .digest (Md5.digest q.main.ksize q.main.mins) := by
+  intro q
+  have h := cache_inv_tree p cs h0
+  exact ⟨(treeOp_digest (s := q.other) h.1).1, (treeOp_digest (s := q.main) h.2).1, (treeOp_digest (s := q.other) h.1).2.2.1, (treeOp_digest (s := q.other) h.1).2.2.2.2.1⟩
+
+/-- **T-eq_sound**: after any history, two sketches with the same ksize and the same hashes compare
+    equal (`==` is md5 equality), both types. -/
+theorem eq_sound_vec (p : VPair) (cs : List Cmd) (h0 : VOk p.main ∧ VOk p.other) :
+    let q := p.run cs
+    q.main.ksize = q.other.ksize → q.main.mins = q.other.mins → (q.main.eq q.other).1 = true := by
+  intro q hk hm
+  have h := cache_inv_vec p cs h0
+  rw [(Vec.eq_spec h.1 h.2).1]
+  unfold Vec.digest
+  rw [hk, hm]
+  exact beq_self_eq_true _
+
+theorem eq_sound_tree (p : TPair) (cs : List Cmd) (h0 : TOk p.main ∧ TOk p.other) :
+    let q := p.run cs
+    q.main.ksize = q.other.ksize → q.main.mins = q.other.mins → (q.main.eq q.other).1 = true := by
+  intro q hk hm
+  have h := cache_inv_tree p cs h0
+  rw [(Tree.eq_spec h.1 h.2).1]
+  unfold Tree.digest
+  rw [hk, hm]
+  exact beq_self_eq_true _
+
+/-- `==` after any history is exactly equality of the digests of the current contents (so the only
+    way two sketches with different contents compare equal is equal MD5 of their preimages) -/
+theorem eq_is_digest_eq_vec (p : VPair) (cs : List Cmd) (h0 : VOk p.main ∧ VOk p.other) :
+    let q := p.run cs
+    (q.main.eq q.other).1 = (Md5.digest q.main.ksize q.main.mins == Md5.digest q.other.ksize q.other.mins) := by
+  intro q
+  have h := cache_inv_vec p cs h0
+  exact (Vec.eq_spec h.1 h.2).1
+
+theorem eq_is_digest_eq_tree (p : TPair) (cs : List Cmd) (h0 : TOk p.main ∧ TOk p.other) :
+    let q := p.run cs
+    (q.main.eq q.other).1 = (Md5.digest q.main.ksize q.main.mins == Md5.digest q.other.ksize q.other.mins) := by
+  intro q
+  have h := cache_inv_tree p cs h0
+  exact (Tree.eq_spec h.1 h.2).1
+
+/-- **T-copy**: after any history a clone holds its source's ksize and hashes, reports the same
+    md5sum as its source, and that is the digest of those hashes. -/
+theorem copy_vec (p : VPair) (cs : List Cmd) (h0 : VOk p.main ∧ VOk p.other) :
+    let s := (p.run cs).main
+    s.clone.1.mins = s.mins ∧ s.clone.1.ksize = s.ksize
+    ∧ s.clone.1.md5sum.1 = s.md5sum.1 ∧ s.clone.1.md5sum.1 = Md5.digest s.ksize s.mins := by
+  intro s
+  have h := (cache_inv_vec p cs h0).1
+  have hc := Vec.clone_spec h
+  have e : s.clone.1.md5sum.1 = s.digest := (Vec.md5sum_spec hc.2.2.2.1).1
+  exact ⟨hc.1, hc.2.1, e.trans (Vec.md5sum_spec h).1.symm, e⟩
+
+theorem copy_tree (p : TPair) (cs : List Cmd) (h0 : TOk p.main ∧ TOk p.other) :
+    let s := (p.run cs).main
+    s.clone.1.mins = s.mins ∧ s.clone.1.ksize = s.ksize
+    ∧ s.clone.1.md5sum.1 = s.md5sum.1 ∧ s.clone.1.md5sum.1 = Md5.digest s.ksize s.mins := by
+  intro s
+  have h := (cache_inv_tree p cs h0).1
+  have hc := Tree.clone_spec h
+  have e : s.clone.1.md5sum.1 = s.digest := (Tree.md5sum_spec hc.2.2.2.1).1
+  exact ⟨hc.1, hc.2.1, e.trans (Tree.md5sum_spec h).1.symm, e⟩
 
 /-- **T-eq_complete_cex** (finding, not repaired): the preimage has no separators, so different
     hash lists at the same ksize feed the same bytes into MD5 — "equal exactly when ksize and hashes
@@ -13,5 +144,30 @@ theorem eq_complete_cex :
     Md5.preimage 21 [1, 23] = Md5.preimage 21 [123] ∧ [1, 23] ≠ [123]
     ∧ Md5.preimage 21 [1, 23] = Md5.preimage 21 [12, 3] ∧ Md5.preimage 21 [1, 23] = Md5.preimage 21 [1, 2, 3] := by
   decide
+
+/-- … and therefore two *reachable* sketches with different hashes compare equal: build `{1,23}` and
+    `{123}` by adds on new scaled sketches and compare (no MD5 evaluation needed: equal preimages). -/
+theorem eq_complete_cex_reachable :
+    let p : VPair := ⟨Vec.new 0 (2 ^ 64 - 1) false, Vec.new 0 (2 ^ 64 - 1) false⟩
+    let q := p.run [.on false (.add 1 1), .on false (.add 23 1), .on true (.add 123 1)]
+    q.main.mins = [1, 23] ∧ q.other.mins = [123] ∧ (q.main.eq q.other).1 = true := by
+  intro p q
+  have hm : q.main.mins = [1, 23] := by decide
+  have ho : q.other.mins = [123] := by decide
+  have hk1 : q.main.ksize = 21 := by decide
+  have hk2 : q.other.ksize = 21 := by decide
+  refine ⟨hm, ho, ?_⟩
+  have h := cache_inv_vec p [.on false (.add 1 1), .on false (.add 23 1), .on true (.add 123 1)]
+    ⟨VOk.new .., VOk.new ..⟩
+  rw [(Vec.eq_spec h.1 h.2).1]
+  show (Md5.digest q.main.ksize q.main.mins == Md5.digest q.other.ksize q.other.mins) = true
+  rw [hm, ho, hk1, hk2]
+  unfold Md5.digest
+  rw [eq_complete_cex.1]
+  exact beq_self_eq_true _
+
+/-! non-vacuity of the hypotheses: the starting pair used by the driver satisfies them -/
+example : VOk (Vec.new 3 0 true) ∧ VOk (Vec.new 3 0 false) := ⟨VOk.new .., VOk.new ..⟩
+example : TOk (Tree.new 0 5 true) ∧ TOk (Tree.new 0 5 false) := ⟨TOk.new .., TOk.new ..⟩
 
 end Sourmash.C13
